@@ -2,6 +2,7 @@
 import hashlib
 
 from harness import exhaustive, histories, impl
+from harness.lanes import c01_index
 from harness.core import LaneBase
 
 
@@ -10,6 +11,7 @@ class Lane(LaneBase):
     THEOREMS = 'auto'
     AUDIT = 'CG/Audit/C01.lean'
     DIFF_IS_FAILURE = True
+    WHITE_BOX_PREFIXES = ('idx ',)
     RULE = ('random histories of 3-25 public mutator calls on both classes (about one third aimed at a specific '
             'error path: duplicate, reverse edge, self-loop, cycle-closing edge, missing node/edge, against time), '
             'caches cold or warm; after every call every read view is compared with the model. A case is '
@@ -167,6 +169,13 @@ class Lane(LaneBase):
                 histories.warm_caches(g)
             lines.append('g obs h')
             out.append(impl.obs(g))
+            # the code's PRIVATE redundant containers (both edge indexes, per-node edge lists, lag / variable indexes) against
+            # the index-level model of the same state (CG.Indexed, proved to refine the one-map model: CG.IndexRefine);
+            # white-box and optional -- no line when the private layout is not the known one
+            for ln, exp in c01_index.index_lines(g):
+                lines.append(ln)
+                out.append(exp)
+                tags.add('private-indexes-tied')
             if not oracle:
                 bad = impl.views_consistent(g)
                 if bad:
